@@ -37,7 +37,8 @@ template<> struct QN<QL>    { static const char* s() { return "l"; } };
 template<class T> struct Case { T a[4], b[4], c[4]; T eta; unsigned depth; };
 
 template<int L, class T, glm::qualifier Q> glm::vec<L, T, Q> mk(const T* p) {
-    glm::vec<L, T, Q> v; for (int i = 0; i < L; ++i) v[i] = p[i]; return v;
+    glm::vec<L, T, Q> v; std::memset(static_cast<void*>(&v), 0xFF, sizeof v);     // padding lanes of aligned vec3: a NaN pattern
+    for (int i = 0; i < L; ++i) v[i] = p[i]; return v;
 }
 
 // ------------------------------------------------------------------ core functions, vector overloads
